@@ -564,7 +564,7 @@ func (se *SessionExecutor) recycleBackendConn(pc backend.PooledConnect) {
 	}
 
 	if pc.IsClosed() {
-		se.recycleTx()
+		se.recycleTx(pc)
 		pc.Recycle()
 		return
 	}
@@ -591,7 +591,7 @@ func (se *SessionExecutor) recycleContinueConn(pc backend.PooledConnect) {
 		return
 	}
 	if pc.IsClosed() {
-		se.recycleTx()
+		se.recycleTx(pc)
 		pc.Recycle()
 		return
 	}
@@ -1526,12 +1526,24 @@ func (se *SessionExecutor) handleSavepoint(stmt *ast.SavepointStmt) (err error) 
 	return
 }
 
-func (se *SessionExecutor) recycleTx() {
+// recycleTx drops the transaction connections after one of them (lost) has been
+// closed: the others are rolled back and given back to their pools before they
+// are forgotten; lost itself is recycled by the caller.
+func (se *SessionExecutor) recycleTx(lost backend.PooledConnect) {
 	if !se.isInTransaction() {
 		return
 	}
 	se.txLock.Lock()
 	defer se.txLock.Unlock()
+	for _, pc := range se.txConns {
+		if pc == lost {
+			continue
+		}
+		if !pc.IsClosed() {
+			pc.Rollback()
+		}
+		pc.Recycle()
+	}
 	se.txConns = make(map[string]backend.PooledConnect)
 }
 
